@@ -218,6 +218,21 @@ func checkSet(c SetCase) *vk.Violation {
 						viol = vk.Violf(p.name+"/round-trip", c, "%s(%s(set)) differs from the set: %s", p.name, cont, d)
 						return
 					}
+					// the parsed values belong to the caller, one by one and including their spare capacity: appending
+					// to one of them (writing behind its length) must not reach another parameter of the set
+					var vals [][]byte
+					var tags []uint16
+					for tag, val := range r.m {
+						vals, tags = append(vals, val), append(tags, tag)
+					}
+					if i, j, sh := vk.SharedSpare(vals); sh {
+						viol = vk.Violf(p.name+"/values-share-memory", c, "%s: writing into the spare capacity of the value of tag %#04x changed the value of tag %#04x of the same parsed set", p.name, tags[i], tags[j])
+						return
+					}
+					// ... and the caller may edit them in place when it is done: later parses must not see it
+					for _, val := range vals {
+						vk.Overwrite(val)
+					}
 				}
 			}
 		}
